@@ -98,6 +98,7 @@ func Krovak(this *SR) (forward, inverse Transformer, err error) {
 			err = fmt.Errorf("proj.Krovak: iter >= 15")
 			return
 		}
+		lon, lat = x, y
 
 		return
 	}
